@@ -6,6 +6,7 @@
 //!
 //! Exit status: 0 = the property held on this input, 1 = violated (REPRODUCED line), 3 = the draws
 //! violate an assumption of the harness (not a valid counterexample), 2 = usage error.
+mod synparse;
 use incan_verif_kani::nd::{AssumptionViolated, BytesNd};
 use std::panic;
 
@@ -96,6 +97,7 @@ fn main() {
             println!("NOTFOUND harness={name} tried={iters} valid={valid}");
             std::process::exit(0);
         }
+        "synparse" => synparse::main(&args[2..]),
         "num" => incan_verif_kani::numreplay::main(&args[2..]),
         #[cfg(feature = "compiler")]
         "emitrust" => incan_verif_kani::tcreplay::emit_main(&args[2..]),
